@@ -18,6 +18,10 @@ func init() {
 	})
 }
 
+// errOriginStop: the functions the specified origin sets name; every other in-module callee is a helper
+// whose own error results are expanded.
+var errOriginStop = map[string]bool{"parse": true, "stringsToNodes": true}
+
 // errOrigins: where can a returned error value come from? Expands in-module callees.
 func errOrigins(p *Prog, qz *quantizer, fb *fnBounds, v ssa.Value, at *ssa.Return, seen map[ssa.Value]bool, depth int) []string {
 	if seen[v] || depth > 6 {
@@ -35,8 +39,30 @@ func errOrigins(p *Prog, qz *quantizer, fb *fnBounds, v ssa.Value, at *ssa.Retur
 		return out
 	case *ssa.Extract:
 		if c, ok := t.Tuple.(*ssa.Call); ok {
-			if callee := c.Call.StaticCallee(); callee != nil && p.InModule(callee) {
-				return []string{qz.prov(t, 0)}
+			if callee := c.Call.StaticCallee(); callee != nil && p.InModule(callee) && !errOriginStop[callee.Name()] && depth < 4 {
+				// a helper the specification does not name: its error results are the origins
+				var out []string
+				descs := make([]string, len(callee.Params))
+				for i := range callee.Params {
+					if i < len(c.Call.Args) {
+						descs[i] = qz.prov(c.Call.Args[i], 0)
+					}
+				}
+				for i, prm := range callee.Params {
+					if i < len(c.Call.Args) {
+						qz.elemVar[prm] = descs[i]
+					}
+				}
+				cfb := fb.bp.forFn(callee)
+				for _, b := range callee.Blocks {
+					if ret, ok := b.Instrs[len(b.Instrs)-1].(*ssa.Return); ok && t.Index < len(ret.Results) {
+						out = append(out, errOrigins(p, qz, cfb, ret.Results[t.Index], ret, seen, depth+1)...)
+					}
+				}
+				for _, prm := range callee.Params {
+					delete(qz.elemVar, prm)
+				}
+				return out
 			}
 		}
 		return []string{qz.prov(t, 0)}
@@ -412,12 +438,7 @@ func rulesC04(p *Prog, r *Report) {
 					continue
 				}
 				n++
-				guarded := false
-				for cf := range fb.facts[b.Index] {
-					if c, ok := cf.c.(*ssa.Call); ok && !cf.pol && c.Call.StaticCallee() != nil && c.Call.StaticCallee().Name() == "isExpression" && len(c.Call.Args) == 1 && c.Call.Args[0] == st.Val {
-						guarded = true
-					}
-				}
+				guarded := testedNotExpression(bp, fb, b, st.Val, 0)
 				if !guarded {
 					bad = append(bad, fmt.Sprintf("%s: a node is stored into the allowed list without having been tested not to be an expression", p.pos(st.Pos())))
 				}
@@ -431,6 +452,52 @@ func rulesC04(p *Prog, r *Report) {
 			r.OK("V6", "stringsToNodes", p.pos(s2n.Pos()), "stores guarded by !isExpression", fmt.Sprintf("%d stores", n), true)
 		}
 	}
+}
+
+// testedNotExpression: at block b the value v is known not to be a compound expression: either
+// !isExpression(v) is among the branch facts, or v is the result of a helper all of whose non-constant
+// returns of that result are themselves so tested.
+func testedNotExpression(bp *boundsProver, fb *fnBounds, b *ssa.BasicBlock, v ssa.Value, depth int) bool {
+	for cf := range fb.facts[b.Index] {
+		if c, ok := cf.c.(*ssa.Call); ok && !cf.pol && c.Call.StaticCallee() != nil && c.Call.StaticCallee().Name() == "isExpression" && len(c.Call.Args) == 1 && c.Call.Args[0] == v {
+			return true
+		}
+	}
+	if depth > 3 {
+		return false
+	}
+	var call *ssa.Call
+	idx := 0
+	switch t := v.(type) {
+	case *ssa.Extract:
+		call, _ = t.Tuple.(*ssa.Call)
+		idx = t.Index
+	case *ssa.Call:
+		call = t
+	}
+	if call == nil {
+		return false
+	}
+	callee := call.Call.StaticCallee()
+	if callee == nil || !bp.p.InModule(callee) || callee.Name() == "parse" {
+		return false
+	}
+	cfb := bp.forFn(callee)
+	n := 0
+	for _, cb := range callee.Blocks {
+		ret, ok := cb.Instrs[len(cb.Instrs)-1].(*ssa.Return)
+		if !ok || idx >= len(ret.Results) {
+			continue
+		}
+		if _, isConst := ret.Results[idx].(*ssa.Const); isConst {
+			continue
+		}
+		n++
+		if !testedNotExpression(bp, cfb, cb, ret.Results[idx], depth+1) {
+			return false
+		}
+	}
+	return n > 0
 }
 
 func retDesc(ret *ssa.Return) string {
